@@ -357,13 +357,16 @@ func printExpr(b *strings.Builder, e Expr) {
 		b.WriteByte(' ')
 		printOperand(b, x.X)
 	case Binary:
-		if l, ok := x.L.(Lit); ok && x.Op == "/" && (l.V.K == KString || l.V.K == KBool || l.V.K == KRegexp) {
-			// a slash after a string, keyword or regexp token starts a regexp
+		var left strings.Builder
+		printOperand(&left, x.L)
+		lt := left.String()
+		if l, ok := x.L.(Lit); (ok && x.Op == "/" && (l.V.K == KString || l.V.K == KBool || l.V.K == KRegexp)) || (x.Op == "/" && strings.HasSuffix(strings.TrimSpace(lt), "}")) {
+			// a slash after a string, keyword, regexp token or closing brace starts a regexp
 			b.WriteByte('(')
 			printExpr(b, x.L)
 			b.WriteByte(')')
 		} else {
-			printOperand(b, x.L)
+			b.WriteString(lt)
 		}
 		b.WriteByte(' ')
 		b.WriteString(x.Op)
